@@ -49,6 +49,8 @@ type replGen struct {
 	typedefs []string // accepted typedefs (all include Int)
 	ghostTD  []string // typedefs only rejected inputs tried to define
 	ghostK   []string // constants only rejected inputs tried to define
+	defaults []string // classes used as default type arguments
+	generics []string // "Generic:Default" pairs
 	mixins   []string // accepted mixins (each has a method mx<name>: Int)
 	mixed    []string // "Class:mixin method" pairs of classes that include a mixin
 	parents  []string // classes with a method `who: Int` that have (or may get) subclasses
@@ -95,6 +97,7 @@ var replThemes = map[string][]int{
 	"closures": {12, 13, 44, 44, 45, 45, 46, 46, 15, 16, 19, 20, 28},
 	"typedefs": {47, 47, 48, 48, 49, 49, 50, 50, 51, 10, 17, 18},
 	"mixins":   {52, 53, 53, 54, 54, 55, 55, 24, 25, 26, 28, 17},
+	"generics": {63, 63, 64, 64, 65, 65, 66, 66, 66, 24, 28, 17},
 	"inherit":  {56, 56, 57, 57, 58, 58, 61, 62, 24, 25, 26, 27, 28, 17},
 	"rejusing": {39, 39, 59, 59, 60, 60, 40, 42, 17},
 }
@@ -164,6 +167,36 @@ func (g *replGen) next() string {
 		// a call of a method only a rejected input imported
 		if len(g.ghostUse) > 0 {
 			return fmt.Sprintf("println \"T:ghostuse:${%s()}\"", Pick(g.r, g.ghostUse))
+		}
+		return fmt.Sprintf("println \"T:%d:lit\"", g.n)
+	case k == 63:
+		// a plain class that generic classes use as a default type argument
+		c := g.fresh("Kd")
+		g.defaults = append(g.defaults, c)
+		return fmt.Sprintf("class %s\n  def base: Int\n    %d\n  end\nend", c, g.r.Range(1, 9))
+	case k == 64:
+		// a generic class whose second type parameter defaults to such a class
+		if len(g.defaults) > 0 {
+			d := Pick(g.r, g.defaults)
+			c := g.fresh("Gb")
+			g.generics = append(g.generics, c+":"+d)
+			return fmt.Sprintf("class %s[V, Y = %s]\n  def pick(y: Y): Y\n    y\n  end\nend", c, d)
+		}
+		return fmt.Sprintf("println \"T:%d:lit\"", g.n)
+	case k == 65:
+		// invalid: reopens the default class with a new method, then fails
+		if len(g.defaults) > 0 {
+			d := Pick(g.r, g.defaults)
+			return fmt.Sprintf("class %s\n  def ghost_extra: Int\n    %d\n  end\nend\nundefined_function_%d(1)", d, g.r.Range(1, 9), g.n)
+		}
+		return fmt.Sprintf("var bad%d: String = 5", g.n)
+	case k == 66:
+		// the default class through the omitted type argument: its own method, or the one only a
+		// rejected input gave it
+		if len(g.generics) > 0 {
+			pr := strings.SplitN(Pick(g.r, g.generics), ":", 2)
+			m := Pick(g.r, []string{"base", "base", "ghost_extra"})
+			return fmt.Sprintf("println \"T:%d:${%s::[Int]().pick(%s()).%s}\"", g.n, pr[0], pr[1], m)
 		}
 		return fmt.Sprintf("println \"T:%d:lit\"", g.n)
 	case k == 52:
@@ -419,7 +452,7 @@ func (*c27Engine) Generate(seed uint64, tier string) *Case {
 	r := NewRand(seed)
 	g := &replGen{r: r}
 	if r.Chance(0.8) {
-		names := []string{"methods", "classes", "values", "ivars", "circular", "throwers", "using", "ghosts", "closures", "typedefs", "typedefs", "mixins", "mixins", "inherit", "inherit", "rejusing"}
+		names := []string{"methods", "classes", "values", "ivars", "circular", "throwers", "using", "ghosts", "closures", "typedefs", "typedefs", "mixins", "mixins", "inherit", "inherit", "rejusing", "generics", "generics"}
 		for i := 0; i < r.Range(1, 3); i++ {
 			g.pool = append(g.pool, replThemes[Pick(r, names)]...)
 		}
